@@ -46,6 +46,19 @@ CHECKS = {
          "Trusted: mc/ref/chacha.py, aes.py, des.py. Limits needing >2^30 bytes of traffic (CTR width>=4, GCM, Salsa20) are out of reach "
          "and stated in the evidence.",
          "DESIGN.md 3/C11"),
+ "C19": ("model_checking",
+         "systematic schedule exploration with iterative preemption bounding: Python-level baton scheduler over real threads for the curve registry, and a TSan-callback shim over the instrumented C code for native calls; plus exhaustive sequential interleavings and copy histories",
+         "(1) all 20 interleavings x 7 third-object positions of two 3-step programs on 91 object pairs sharing a native module, and all copy() "
+         "histories to depth 4/5 on every class with copy(); (2) a monitor that caller-owned buffers, hash/XOF objects handed to signers and point "
+         "operands are unchanged; (3) concurrent first use of each of the nine curves by 2 and 3 real threads under a baton scheduler (scheduling "
+         "points: every line of the registry look-up and its lock), all schedules with <=2 preemptions; (4) the C sources compiled with "
+         "-fsanitize=thread run against a 300-line callback shim instead of the TSan runtime: for 53 native workloads the shared read/write sets of "
+         "two threads are measured (25 M classified accesses), workloads without write conflicts collapse to one Mazurkiewicz representative, the "
+         "others are executed under every schedule with <=2 preemptions at the conflicting accesses. This reaches interleavings no test can pin.",
+         "Trusted: the schedulers (mc/explore/pysched.py, mc/native/vsched.c). Sequential consistency assumed; races inside libc/libgmp invisible; "
+         "caller buffers and thread-allocated blocks are thread-private; workloads with >300 scheduling points have their preemption positions "
+         "thinned (reported as caps, exhaustive=false).",
+         "DESIGN.md 3/C19"),
 }
 NOT_YET = "check not built yet (work in progress in this session; see DESIGN.md section 3 for the planned bounded-exhaustive check)"
 man = {
